@@ -20,6 +20,31 @@ CHECKS = {
          "known-finding trigger are attributed to that finding",
          "runtime differential monitoring (kernel + reference VM vs exact "
          "reference semantics)", "4 C01"),
+ "C02": ("exploration",
+         "Differential execution of seeded random fixed-point/integer "
+         "statements (kernel + reference machine) against Fraction "
+         "arithmetic with set-valued floor/trunc dropping, plus a "
+         "Python-side leg for decimal writes/reads of x variables; strata "
+         "(operator x destination kind) are counted, an empty stratum is "
+         "inconclusive.",
+         "trusts the kernel's execution; strictness is decided "
+         "conservatively (every raw value x 10^10 must fit the width), so "
+         "large magnitudes are unchecked",
+         "runtime differential monitoring against a rational reference "
+         "model", "4 C02"),
+ "C03": ("exploration",
+         "Seeded random condition trees (all comparison operators, bit "
+         "tests, bit fields, ~ & | nesting, with/Else, nested and sequenced "
+         "blocks) are compiled by the real generator; marker variables "
+         "record which body / Else body / continuation ran in the kernel "
+         "and in the reference machine and are compared with the truth "
+         "value computed over exact numbers. Atom x polarity coverage is "
+         "counted; holes make the run inconclusive.",
+         "trusts the kernel's execution; conditions outside the "
+         "precondition (values not fitting the narrowest width) are "
+         "counted as unchecked",
+         "runtime differential monitoring (branch markers vs reference "
+         "truth value)", "4 C03"),
 }
 
 NOT_YET = "check not built yet in this round (design in DESIGN.md section 4)"
